@@ -29,6 +29,9 @@ SqlEntry(e, g, std, digest) ==
           /\ e.xscan = "none" /\ e.xvalok /\ e.xval \in std /\ e.xd = digest        \* ... and so is the XDR encoding
      ELSE e.scan \in {"wrongtype", "error"} /\ e.xscan \in {"wrongtype", "error"}
 
+\* A result is a value: the bytes an encoder handed out still hold what they held at the return when the same entry point has
+\* been called again (the driver keeps the previous result of every entry point alive and lists the ones that changed).
+Overwritten(r) == IF "overwritten" \in DOMAIN r THEN r.overwritten ELSE <<>>
 Clause(r) ==
   LET g == r.case.g  fl == r.case.flavor
       sym == Enc(g, r.case.order, fl)
@@ -45,6 +48,7 @@ Clause(r) ==
       RefReads(bs) == LET d == Decode(bs, DFlavor(fl), fl = "wkbnan", <<-1, -1, -1>>) IN
                       d.ok /\ d.pos = Len(bs) /\ M(d.g) = ConcG(canon, r.img) IN
   CASE r.ev # "ok" -> r.ev
+    [] Overwritten(r) # <<>> -> "result-overwritten-by-a-later-call:" \o Overwritten(r)[1]
     [] IllFormed(r) -> "ill-formed-result"
     [] sym = <<>> -> (IF ~r.enc.ok THEN Refused(r, canon)
                      ELSE IF r.dec.ok /\ r.dec.g = canon THEN "ok" ELSE "encoded-the-unencodable")
